@@ -165,7 +165,18 @@ def snapshot(resp):
                 method=resp["request"]["method"], rid=resp["request"].get("rid"), errored=resp["errored"], obj=resp)
 
 
-def h(sym, shapes, steps, slots, maxcall, lmax, stride):
+def pick_shapes(sym, shapes, free):
+    """fixed prefix `shapes` + one selector per remaining response (`free` = (count, alphabet))"""
+    shapes = list(shapes)
+    if free:
+        count, alphabet = free
+        for i in range(count):
+            shapes.append(alphabet[sym.choice("shape%d" % (len(shapes)), len(alphabet))])
+    return shapes
+
+
+def h(sym, shapes, steps, slots, maxcall, lmax, stride, free=None):
+    shapes = pick_shapes(sym, shapes, free)
     policy = SlotLimits(sym, slots, maxcall, lmax, stride) if slots else Unlimited()
     whos = [sym.choice("who%d" % k, 2) for k in range(steps)]
     # the exchange runs as plain CPython; the socket double resumes tracing for its symbolic limit decisions
@@ -235,8 +246,9 @@ def _exchange(sym, shapes, whos, slots, policy):
     return True
 
 
-def h_pipe(sym, shapes, maxcut, maxgap=3):
+def h_pipe(sym, shapes, maxcut, maxgap=3, free=None):
     """raw pipelined client: all N requests back to back, split at a symbolic cut"""
+    shapes = pick_shapes(sym, shapes, free)
     cut = sym.realize(sym.int("cut", 0, maxcut))
     gap = sym.realize(sym.int("gap", 0, maxgap))
     return run_concrete(sym, _pipe, shapes, cut, gap)
@@ -292,31 +304,57 @@ def obligations(tier):
     out = []
     budget = 240 if quick else 900
     four = [("fixed", "stream"), ("stream", "fixed"), ("stream", "stream"), ("empty", "fixed")]
+    # a plan: (family, [(prefix tuple, free=(count, alphabet) or None)], parameters).  quick: one shard per shape tuple;
+    # thorough: one shard per first shape (per first two for N=3), the remaining shapes are selectors inside the shard.
+    def grouped(alphabet, n, fixed):
+        return [(t, (n - fixed, alphabet)) for t in tuples(alphabet, fixed)]
+
+    def single(tups):
+        return [(t, None) for t in tups]
+
     if quick:
-        plans = [("sched", tuples(SHAPES_Q, 2), dict(steps=6, slots=0, maxcall=0, lmax=0, stride=1)),
-                 ("xfer", tuples(SHAPES_Q, 2), dict(steps=0, slots=1, maxcall=40, lmax=3, stride=1))]
-        pipes = [(tuples(SHAPES_Q, 2), 40, 3)]
+        plans = [("sched", single(tuples(SHAPES_Q, 2)), dict(steps=6, slots=0, maxcall=0, lmax=0, stride=1)),
+                 ("xfer", single(tuples(SHAPES_Q, 2)), dict(steps=0, slots=1, maxcall=40, lmax=3, stride=1))]
+        pipes = [("pipe", single(tuples(SHAPES_Q, 2)), 40, 3)]
     else:
-        plans = [("sched", tuples(SHAPES_T, 2), dict(steps=8, slots=0, maxcall=0, lmax=0, stride=1)),
-                 ("sched3", tuples(SHAPES_Q, 3), dict(steps=7, slots=0, maxcall=0, lmax=0, stride=1)),
-                 ("xfer", tuples(SHAPES_T, 2), dict(steps=0, slots=1, maxcall=60, lmax=3, stride=1)),
-                 ("xfer3", tuples(SHAPES_Q, 3), dict(steps=0, slots=1, maxcall=80, lmax=2, stride=17)),
-                 ("xfer2slots", four, dict(steps=0, slots=2, maxcall=60, lmax=2, stride=17)),
-                 ("both", tuples(SHAPES_Q, 2), dict(steps=3, slots=1, maxcall=60, lmax=2, stride=1))]
-        pipes = [(tuples(SHAPES_T, 2), 120, 1), (tuples(SHAPES_Q, 3), 100, 1)]
-    for fam, tups, kw in plans:
-        for t in tups:
+        plans = [("sched", grouped(SHAPES_T, 2, 1), dict(steps=8, slots=0, maxcall=0, lmax=0, stride=1)),
+                 ("sched3", grouped(SHAPES_Q, 3, 2), dict(steps=7, slots=0, maxcall=0, lmax=0, stride=1)),
+                 ("xfer", grouped(SHAPES_T, 2, 1), dict(steps=0, slots=1, maxcall=60, lmax=3, stride=1)),
+                 ("xfer3", grouped(SHAPES_Q, 3, 2), dict(steps=0, slots=1, maxcall=80, lmax=2, stride=17)),
+                 ("xfer2slots", single(four), dict(steps=0, slots=2, maxcall=60, lmax=2, stride=17)),
+                 ("both", grouped(SHAPES_Q, 2, 1), dict(steps=3, slots=1, maxcall=60, lmax=2, stride=1))]
+        pipes = [("pipe", grouped(SHAPES_T, 2, 1), 120, 1), ("pipe3", grouped(SHAPES_Q, 3, 2), 100, 1)]
+
+    def label(t, free):
+        return "+".join(t) + ("+*" * free[0] if free else "")
+
+    def some_clean(t, free, pipe):
+        alphabet = free[1] if free else ()
+        cands = tuples(alphabet, free[0]) if free else [()]
+        for rest in cands:
+            full = tuple(t) + tuple(rest)
+            if pipe and all(s not in NOLENGTH for s in full[1:]):
+                return True
+            if not pipe and clean_on_unchanged_tree(full):
+                return True
+        return False
+
+    for fam, groups, kw in plans:
+        for t, free in groups:
+            n = len(t) + (free[0] if free else 0)
             covers = []
-            if clean_on_unchanged_tree(t):
+            if some_clean(t, free, False):
                 covers = ["n-responses"] + (["limited-transfer"] if kw["slots"] else [])
-            out.append(Ob("%s/%s" % (fam, "+".join(t)), h, dict(shapes=list(t), **kw), budget=budget, covers=covers,
-                          bounds=dict(N=len(t), shapes=list(t), schedule_steps=kw["steps"], limited_calls=kw["slots"],
-                                      call_index=[0, kw["maxcall"]], limit_bytes=[0, kw["lmax"] * kw["stride"]],
-                                      limit_stride=kw["stride"])))
-    for tups, maxcut, maxgap in pipes:
-        for t in tups:
-            covers = ["n-responses", "split-pipeline"] if all(s not in NOLENGTH for s in t[1:]) else []
-            out.append(Ob("pipe%s/%s" % ("" if len(t) == 2 else str(len(t)), "+".join(t)), h_pipe,
-                          dict(shapes=list(t), maxcut=maxcut, maxgap=maxgap), budget=budget,
-                          covers=covers, bounds=dict(N=len(t), shapes=list(t), cut=[0, maxcut], gap_rounds=[0, maxgap])))
+            out.append(Ob("%s/%s" % (fam, label(t, free)), h, dict(shapes=list(t), free=free, **kw), budget=budget, covers=covers,
+                          bounds=dict(N=n, shapes=list(t), free_shapes=list(free[1]) if free else [], schedule_steps=kw["steps"],
+                                      limited_calls=kw["slots"], call_index=[0, kw["maxcall"]],
+                                      limit_bytes=[0, kw["lmax"] * kw["stride"]], limit_stride=kw["stride"])))
+    for fam, groups, maxcut, maxgap in pipes:
+        for t, free in groups:
+            n = len(t) + (free[0] if free else 0)
+            covers = ["n-responses", "split-pipeline"] if some_clean(t, free, True) else []
+            out.append(Ob("%s/%s" % (fam, label(t, free)), h_pipe, dict(shapes=list(t), free=free, maxcut=maxcut, maxgap=maxgap),
+                          budget=budget, covers=covers,
+                          bounds=dict(N=n, shapes=list(t), free_shapes=list(free[1]) if free else [], cut=[0, maxcut],
+                                      gap_rounds=[0, maxgap])))
     return out
